@@ -233,9 +233,12 @@ class FakeAtlas:
             rec["fault"] = list(fault)
             if fault[0] == "status":
                 # the body Atlas sends with such an answer: an errorCode the client may want to explain (rotating through the usual ones)
-                codes = ["IP_ADDRESS_NOT_ON_ACCESS_LIST", "USER_UNAUTHORIZED", "ORG_REQUIRES_ACCESS_LIST", "RESOURCE_NOT_FOUND", "CLUSTER_NOT_FOUND",
+                codes = ["IP_ADDRESS_NOT_ON_ACCESS_LIST", "ORG_REQUIRES_ACCESS_LIST", "USER_UNAUTHORIZED", "RESOURCE_NOT_FOUND", "CLUSTER_NOT_FOUND",
                          "NOT_ATLAS_GROUP", "RATE_LIMITED", "INVALID_ATTRIBUTE", "UNEXPECTED_ERROR"]
-                ec = codes[(fault[1] + len(self.log) + len(sc.project)) % len(codes)]
+                try:
+                    ec = codes[int(sc.project[-4:]) % len(codes)]          # by scenario variant (the project id ends in it)
+                except ValueError:
+                    ec = codes[(fault[1] + len(self.log)) % len(codes)]
                 body = json.dumps({"error": fault[1], "errorCode": ec, "reason": {401: "Unauthorized", 403: "Forbidden", 404: "Not Found"}.get(fault[1], "Error"),
                                    "detail": "scripted failure (%s)" % ec, "parameters": [sc.project], "you_sent": head if (len(fault) > 2 and fault[2]) else ""}).encode()
                 return send(fault[1], body, ["Content-Type: application/json"])
